@@ -174,5 +174,60 @@ impl Candidate {
 //@end
 }
 
+// ---------- Policies::<Candidate>::evaluate: every candidate stays in the result, evaluated or not ----------
+pub struct MapIntoIter<T> { pub items: Ghost<Seq<(u64, T)>>, pub pos: Ghost<int> }
+pub struct Collector<T> { pub m: Ghost<Map<u64, T>> }
+impl<T> NameMap<T> {
+    // HashMap::into_iter: every entry exactly once, arbitrary order
+    #[verifier::external_body]
+    pub fn into_iter(self) -> (r: MapIntoIter<T>)
+        ensures r.pos@ == 0,
+            forall|i: int| 0 <= i < r.items@.len() ==> self.m@.contains_key((#[trigger] r.items@[i]).0) && self.m@[r.items@[i].0] == r.items@[i].1,
+            forall|n: u64| #[trigger] self.m@.contains_key(n) ==> exists|i: int| 0 <= i < r.items@.len() && (#[trigger] r.items@[i]).0 == n,
+    { unimplemented!() }
+    #[verifier::external_body]
+    pub fn len(&self) -> (r: usize) { unimplemented!() }
+}
+impl<T> MapIntoIter<T> {
+    #[verifier::external_body]
+    pub fn next(&mut self) -> (r: Option<(Name, T)>)
+        requires 0 <= old(self).pos@ <= old(self).items@.len(),
+        ensures final(self).items@ == old(self).items@, 0 <= final(self).pos@ <= final(self).items@.len(),
+            match r { Some(p) => old(self).pos@ < old(self).items@.len() && p.0.id == old(self).items@[old(self).pos@].0 && p.1 == old(self).items@[old(self).pos@].1 && final(self).pos@ == old(self).pos@ + 1,
+                      None => old(self).pos@ == old(self).items@.len() && final(self).pos@ == old(self).pos@ }
+    { unimplemented!() }
+}
+impl<T> Collector<T> {
+    #[verifier::external_body]
+    pub fn new() -> (r: Collector<T>) ensures r.m@ == Map::<u64, T>::empty() { unimplemented!() }
+    #[verifier::external_body]
+    pub fn push(&mut self, e: (Name, T)) ensures final(self).m@ == old(self).m@.insert(e.0.id, e.1) { unimplemented!() }
+    #[verifier::external_body]
+    pub fn finish(self) -> (r: NameMap<T>) ensures r.m@ == self.m@ { unimplemented!() }
+}
+spec fn kept(o: Map<u64, Evaluated>, s: Map<u64, Candidate>) -> bool {
+    forall|n: u64| #[trigger] o.contains_key(n) ==> s.contains_key(n) && o[n].filter_expr == s[n].filter_expr
+}
+impl Policies<Candidate> {
+//@extract id=policies_evaluate file=junos-agent/src/policies/eval.rs impl=/impl Evaluate for Policies<Candidate>/ fn=evaluate rules=R1,R2,R17,R25
+//@sig fn evaluate(self, evaluator: &mut RpslEvaluator) -> (res: Policies<Evaluated>)
+//@contract
+        // C03 / C15: whatever happens to individual evaluations, every candidate (= policy still marked as managed) is present in
+        // the result with its own expression - a failed one without ranges - so compare() never mistakes it for "no longer managed"
+        ensures
+            forall|n: u64| #[trigger] self.map.m@.contains_key(n) ==> res.map.m@.contains_key(n) && res.map.m@[n].filter_expr == self.map.m@[n].filter_expr,   // OBL:C03+C15.evaluate.every_candidate_is_kept
+            forall|n: u64| #[trigger] res.map.m@.contains_key(n) ==> self.map.m@.contains_key(n),
+//@loop 1
+            invariant
+                0 <= it__0.pos@ <= it__0.items@.len(),
+                forall|i: int| 0 <= i < it__0.items@.len() ==> self.map.m@.contains_key((#[trigger] it__0.items@[i]).0) && self.map.m@[it__0.items@[i].0] == it__0.items@[i].1,
+                forall|n: u64| #[trigger] self.map.m@.contains_key(n) ==> exists|i: int| 0 <= i < it__0.items@.len() && (#[trigger] it__0.items@[i]).0 == n,
+                forall|i: int| 0 <= i < it__0.pos@ ==> out__0.m@.contains_key((#[trigger] it__0.items@[i]).0),
+                kept(out__0.m@, self.map.m@),
+            ensures it__0.pos@ == it__0.items@.len(),
+            decreases it__0.items@.len() - it__0.pos@,
+//@end
+}
+
 } // verus!
 fn main() {}
